@@ -4,6 +4,7 @@ use crate::amt::{self, Within};
 use crate::dynq::*;
 use crate::exact::Rat;
 use crate::gen::{gen_amount, Dom, Tape};
+use crate::hist;
 use crate::model::ctx;
 use crate::runner::*;
 use serde::{Deserialize, Serialize};
@@ -123,6 +124,13 @@ pub fn check(case: &Case) -> Verdict {
                 "{}: equiv_amount({}) = {} but convert stores {}",
                 tname, c.describe_q(case.ty, q), amt::show(eqv), amt::show(conv.0)
             );
+        }
+        // the result depends on the operands only
+        let h = hist::mix(&[hist::mix_str(&case.amount), case.ty as u64, from as u64, to as u64]);
+        if h % 4 == 0 {
+            if let Some(m) = hist::independent(h, &|| hist::show_q((rv.convert)(q, to))) {
+                fail!("{}: converting {} to {} {}", tname, c.describe_q(case.ty, q), c.models[case.ty].row.units[to].konst, m);
+            }
         }
         if from == to {
             if !amt::same(conv.0, a) {
